@@ -21,6 +21,7 @@ EXTERNAL = {
     "free": {0: "f"}, "_mm_free": {0: "f"}, "realloc": {0: "f"},
     "qsort": {0: "w"},
     "fprintf": {}, "printf": {}, "fputs": {0: "r"}, "fclose": {}, "fwrite": {0: "r"}, "fread": {0: "w"},
+    "fputc": {}, "putc": {}, "putchar": {}, "puts": {0: "r"}, "fflush": {}, "fopen": {0: "r", 1: "r"},
     "log_message": {}, "error": {}, "warning": {}, "message": {},
     # functions of values only: they receive no pointer
     "toupper": {}, "tolower": {}, "isalpha": {}, "isspace": {}, "ispunct": {}, "isdigit": {}, "isalnum": {}, "isupper": {}, "islower": {},
